@@ -428,7 +428,10 @@ func (m *DKGProposalFSM) actionMasterKeyConfirmationReceived(inEvent fsm.Event, 
 
 	dkgProposalParticipant.UpdatedAt = request.CreatedAt
 	m.payload.DKGProposalPayload.UpdatedAt = request.CreatedAt
-	m.payload.DKGProposalPayload.PubPolyBz = request.PubPolyBz
+	// an announcement without a polynomial must not erase the one already retained
+	if len(request.PubPolyBz) != 0 {
+		m.payload.DKGProposalPayload.PubPolyBz = request.PubPolyBz
+	}
 
 	m.payload.DKGQuorumUpdate(request.ParticipantId, dkgProposalParticipant)
 
